@@ -41,12 +41,13 @@ def num(rng, x):
 def gen_doc(rng, k):
     """returns (text, tree literal or None, names or None, kind)"""
     r3 = lambda lo, hi: round(rng.uniform(lo, hi), 3)
+    tiny = lambda: round(rng.uniform(0.00002, 0.0009), 5) * rng.choice([1, -1])     # a genuine offset three to four orders below the main one
     a1 = rng.choice([0.0, r3(0.05, 0.4), r3(-0.2, -0.05)])
-    a2 = rng.choice([0.0, r3(-0.3, -0.05), r3(0.05, 0.2)])
+    a2 = rng.choice([0.0, r3(-0.3, -0.05), r3(0.05, 0.2), tiny()])
     c1, c2, c3 = r3(0.2, 0.9), r3(0.3, 1.2), r3(0.3, 1.2)
     c4 = rng.choice([0.0, r3(0.05, 0.3)])
     lay = {"c2x": rng.random() < 0.4, "bj3": rng.random() < 0.35, "c3j4": rng.random() < 0.35, "c3y": rng.random() < 0.5}
-    b = r3(0.05, 0.3) * rng.choice([1, -1]) if lay["bj3"] else 0.0
+    b = (r3(0.05, 0.3) * rng.choice([1, -1]) if rng.random() < 0.75 else tiny()) if lay["bj3"] else 0.0
     kind = "supported"
     if k % 9 == 4 and lay["c3j4"]:
         a2 = 0.0; kind = "ambiguous"            # c3 on joint 4 with a2 = 0 cannot be told apart
@@ -76,6 +77,10 @@ def gen_doc(rng, k):
             axis_txt, axis_val = "0 0 0", ("VOk", [0, 0, 0])   # fixed joint: sign 0
         lim_kind = rng.randrange(6)
         lo, hi = -round(rng.uniform(0.5, 3.1), 3), round(rng.uniform(0.5, 3.1), 3)
+        if rng.random() < 0.2:                     # plain radians typed close to (not on) a quarter turn: 1.57083, -3.14155 ...
+            lo = -round(rng.choice([1, 2]) * math.pi / 2 + rng.uniform(-1e-4, 1e-4), rng.choice([5, 6]))
+        if rng.random() < 0.2:
+            hi = round(rng.choice([1, 2]) * math.pi / 2 + rng.uniform(-1e-4, 1e-4), rng.choice([5, 6]))
         if lim_kind == 0:
             lim_txt, lim_val = None, None
         elif lim_kind == 1:
